@@ -91,6 +91,15 @@ class Gen:
             (1, 'OP', lambda: f'{self.num(d - 1)}/{r.choice(["2", "4", "F1", "0.5", "D1"])}'),
             (1, 'OP', lambda: f'-{self.num(0)}'),
             (1, 'OP', lambda: f'{self.num(0)}%'),
+            # signs and percent directly at a call or a bracketed group, three different operators of neighbouring precedence
+            (1, 'OP', lambda: f'-{r.choice(["SUM(A1:B1)", "MAX(F1:F4)", "ROUND(B1,0)", "COUNT(A3:A8)"])}{r.choice(["+", "*", "-", "/"])}{self.num(0)}'),
+            (1, 'OP', lambda: f'{r.choice(["SUM(A1:B1)", "MIN(F1:F4)", "ROUND(D1/3,1)"])}%{r.choice(["+", "*", "-"])}{self.num(0)}'),
+            (1, 'OP', lambda: f'({self.num(d - 1)}{r.choice(["+", "-"])}{self.num(0)})%'),
+            (1, 'OP', lambda: f'-({self.num(d - 1)}{r.choice(["+", "-", "*"])}{self.num(0)})'),
+            (1, 'OP', lambda: f'{self.num(0)}-{self.num(0)}*{self.num(0)}/{r.choice(["2", "4", "F1", "D1"])}'),
+            (1, 'OP', lambda: f'{self.num(0)}/{r.choice(["2", "4", "F1"])}*{self.num(0)}-{self.num(d - 1)}'),
+            (1, 'OP', lambda: f'{self.num(0)}*-{self.num(0)}+{self.num(0)}%'),
+            (1, 'OP', lambda: f'{self.num(0)}--{self.num(0)}'),
             (3, 'SUM', lambda: f'SUM({self.agg_args(d)})'), (2, 'MAX', lambda: f'MAX({self.agg_args(d)})'), (2, 'MIN', lambda: f'MIN({self.agg_args(d)})'),
             (2, 'AVERAGE', lambda: f'AVERAGE({self.agg_args(d)})'), (2, 'COUNT', lambda: f'COUNT({self.agg_args(d, mixed=True)})'),
             (1, 'COUNTBLANK', lambda: f'COUNTBLANK({r.choice(NUM_AREAS + MIXED_AREAS)})'),
